@@ -53,9 +53,9 @@ void __real_free(void *p){ free(p); }
 
 /* ------------------------------------------------------------------ streams (read-only after start-up) */
 typedef struct { unsigned char *data; long len; int npk; unsigned char **pk; long *pkn; ogg_int64_t *gran; int have; } stream_t;
-enum { ST_S1=0, ST_S2, ST_F0, ST_CH, ST_PL, ST_PR, NSTREAMS };
+enum { ST_S1=0, ST_S2, ST_F0, ST_CH, ST_PL, ST_PR, ST_CQ, NSTREAMS };
 static stream_t g_st[NSTREAMS];
-static const char *g_stname[NSTREAMS]={"s1","s2","f0","ch","pl","pr"};   /* pl/pr: coupled stereo with a digitally silent left/right channel */
+static const char *g_stname[NSTREAMS]={"s1","s2","f0","ch","pl","pr","cq"};   /* pl/pr: coupled stereo with a digitally silent left/right channel */
 
 static void stream_load(stream_t *s,const char *path){
   ogg_sync_state oy; ogg_stream_state os; ogg_page og; ogg_packet op; int init=0; long off=0; int cap=0;
@@ -91,13 +91,14 @@ typedef struct tctx {
   uint64_t stepdig[MAXSTEP]; char stepname[MAXSTEP][12];
   long nonzero;              /* non-zero PCM samples / packet bytes observed */
   long padded;               /* packets ending in >=16 zero bytes (bitrate-floor padding) */
+  long lap2ok;               /* VLAP/VLAQ: lapped seeks that succeeded from the "raw seek into the last page" state (decoder kept, no lap data) */
   long tiny_packets,tiny_empty; /* ENCT/ENCS: audio packets produced; sub-encodes with input but no audio packet */
   int undef;                 /* valgrind: an observed buffer had undefined bytes */
 } tctx;
 static __thread tctx *me=0;
 
 /* ------------------------------------------------------------------ shared result block (child -> parent) */
-typedef struct { h128 dig; long pc[4]; long napi,nsteps,nonzero,padded,tiny_packets,tiny_empty; int fenv_bad; char fenv_where[48]; uint64_t stepdig[MAXSTEP]; char stepname[MAXSTEP][12]; } thres;
+typedef struct { h128 dig; long pc[4]; long napi,nsteps,nonzero,padded,tiny_packets,tiny_empty,lap2ok; int fenv_bad; char fenv_where[48]; uint64_t stepdig[MAXSTEP]; char stepname[MAXSTEP][12]; } thres;
 typedef struct {
   int done, err; char errmsg[160];
   int n;
@@ -163,6 +164,20 @@ static void alloc_hook(void){
 /* ------------------------------------------------------------------ observation helpers */
 static inline unsigned short x87cw(void){ unsigned short cw=0; __asm__ __volatile__("fnstcw %0":"=m"(cw)); return cw; }
 #define CSR_CTL 0xFFC0u       /* MXCSR control bits: DAZ, exception masks, rounding control, FTZ (sticky status flags excluded) */
+/* stack pre-fill: before every API call the dead stack below the caller (256 KiB) is overwritten with a 32-bit pattern, so that
+   a library function that reads an alloca/automatic buffer before writing it produces pattern-dependent output */
+static int g_sfill_on=0; static uint32_t g_sfill_word=0;
+static void __attribute__((noinline)) stack_prefill(void){
+  size_t n=(256u<<10)/4,i; volatile uint32_t *a=(volatile uint32_t*)alloca(256u<<10);
+  for(i=0;i<n;i++)a[i]=g_sfill_word;
+  __asm__ __volatile__(""::"r"(a):"memory");
+}
+static long __attribute__((noinline)) stack_probe(void){   /* self-test: how much of a fresh, unwritten alloca shows the pattern */
+  size_t n=(64u<<10)/4,i; long hit=0; volatile uint32_t *a=(volatile uint32_t*)alloca(64u<<10);
+  __asm__ __volatile__(""::"r"(a):"memory");
+  for(i=0;i<n;i++)if(a[i]==g_sfill_word)hit++;
+  return hit;
+}
 static void api_enter(void){
   tctx *T=me;
   if(T->just_stepped)T->just_stepped=0; else sched_point(2);
@@ -170,6 +185,7 @@ static void api_enter(void){
   T->api_allocs=0; T->napi++;
   if(S.on)h_bytes(&R->order2,&T->tid,sizeof(int));
   T->in_api=1;
+  if(g_sfill_on)stack_prefill();
 }
 static void api_leave(const char *what){
   tctx *T=me;
@@ -398,8 +414,50 @@ static void body_vf(tctx *T,const vf_cfg *c){
   API(r=ov_clear(&vf)); OBS_I(r); OBS_I(m.nclose); OBS_I(m.nread); OBS_I(m.nseek);
 }
 
-enum { B_ENCA=0,B_ENCB,B_ENCC,B_ENCD,B_ENCM,B_ENCT,B_ENCS,B_DECA,B_DECB,B_DECF,B_DECH,B_DECL,B_DECR,B_VFA,B_VFB,B_VFF,B_VFC,B_VFL,B_VFR,NBODY };
-static const char *g_bname[NBODY]={"ENCA","ENCB","ENCC","ENCD","ENCM","ENCT","ENCS","DECA","DECB","DECF","DECH","DECL","DECR","VFA","VFB","VFF","VFC","VFL","VFR"};
+/* every lapped seek variant from every interesting handle state, each on a fresh handle (one g1 step per combination) */
+static void body_lap(tctx *T,int st){
+  static const char vn[6]={'p','P','t','T','r','x'}; const stream_t *s=&g_st[st]; int state,v;
+  (void)T;
+  for(state=0;state<5;state++)for(v=0;v<6;v++){
+    OggVorbis_File vf,vf2; memio m,m2; int r=0,have2=0; ogg_int64_t tot=0,p=0; double dur=0,d=0; char nm[12];
+    snprintf(nm,sizeof(nm),"L%d%c",state,vn[v]);
+    STEP(nm);
+    mio_init(&m,s->data,s->len);
+    API(r=ov_open_callbacks(&m,&vf,NULL,0,mio_cb_seekable)); OBS_I(r);
+    if(r<0)continue;
+    API(tot=ov_pcm_total(&vf,-1)); OBS_I(tot);
+    API(dur=ov_time_total(&vf,-1)); OBS_B(&dur,sizeof(dur));
+    switch(state){
+      case 0: break;                                                                      /* fresh handle */
+      case 1: vf_reads(&vf,3,1); break;                                                   /* in the middle of linear reading */
+      case 2: API(r=ov_pcm_seek(&vf,tot-tot/4)); OBS_I(r); vf_reads(&vf,2,1); API(p=ov_raw_total(&vf,-1)); OBS_I(p); API(r=ov_raw_seek(&vf,p-1)); OBS_I(r); break;       /* raw seek into the last page: decoder restarted, no lap data, stream at EOF */
+      case 3: API(r=ov_pcm_seek(&vf,tot>150?tot-150:0)); OBS_I(r); vf_reads(&vf,4,1); vf_reads(&vf,1,1); break;   /* read to the end of the stream */
+      default: vf_reads(&vf,2,1); API(r=ov_pcm_seek(&vf,tot+1000)); OBS_I(r); break;      /* after a rejected seek */
+    }
+    switch(v){
+      case 0: API(r=ov_pcm_seek_lap(&vf,tot/3)); break;
+      case 1: API(r=ov_pcm_seek_page_lap(&vf,tot/2)); break;
+      case 2: API(r=ov_time_seek_lap(&vf,dur/3.)); break;
+      case 3: API(r=ov_time_seek_page_lap(&vf,dur*0.6)); break;
+      case 4: API(r=ov_raw_seek_lap(&vf,s->len/3)); break;
+      default:
+        mio_init(&m2,s->data,s->len);
+        API(r=ov_open_callbacks(&m2,&vf2,NULL,0,mio_cb_seekable)); OBS_I(r);
+        if(r<0){ r=-999; break; }
+        have2=1;
+        API(r=ov_pcm_seek(&vf2,tot/4)); OBS_I(r);
+        API(r=ov_crosslap(&vf,&vf2)); break;
+    }
+    OBS_I(r);
+    if(state==2&&r==0)T->lap2ok++;
+    if(have2){ API(p=ov_pcm_tell(&vf2)); OBS_I(p); vf_reads(&vf2,3,1); API(r=ov_clear(&vf2)); OBS_I(r); }
+    else{ API(p=ov_pcm_tell(&vf)); OBS_I(p); API(d=ov_time_tell(&vf)); OBS_B(&d,sizeof(d)); vf_reads(&vf,3,1); }
+    API(r=ov_clear(&vf)); OBS_I(r);
+  }
+}
+
+enum { B_ENCA=0,B_ENCB,B_ENCC,B_ENCD,B_ENCM,B_ENCT,B_ENCS,B_DECA,B_DECB,B_DECF,B_DECH,B_DECL,B_DECR,B_VFA,B_VFB,B_VFF,B_VFC,B_VFL,B_VFR,B_VLAP,B_VLAQ,NBODY };
+static const char *g_bname[NBODY]={"ENCA","ENCB","ENCC","ENCD","ENCM","ENCT","ENCS","DECA","DECB","DECF","DECH","DECL","DECR","VFA","VFB","VFF","VFC","VFL","VFR","VLAP","VLAQ"};
 static const enc_cfg g_enc[5]={
   {2,44100,0,0.4f,0,0,0,3,1024,0,0},            /* ENCA stereo 44.1k VBR */
   {1,8000,2,0,-1,12000,-1,3,1024,0,0},          /* ENCB mono 8k, 3-step managed setup + ctl */
@@ -409,7 +467,7 @@ static const enc_cfg g_enc[5]={
 };
 static const dec_cfg g_dec[6]={ {ST_S1,5,2,0},{ST_S2,5,-1,0},{ST_F0,5,1,0},{ST_S2,4,-1,1},{ST_PL,5,-1,0},{ST_PR,5,3,0} };
 static const vf_cfg g_vf[6]={ {ST_S1,0,5,0},{ST_S2,1,9,2},{ST_F0,1,7,1},{ST_CH,0,11,0},{ST_PL,1,6,0},{ST_PR,0,10,2} };
-static int body_stream(int b){ if(b>=B_DECA&&b<=B_DECR)return g_dec[b-B_DECA].st; if(b>=B_VFA&&b<=B_VFR)return g_vf[b-B_VFA].st; return -1; }
+static int body_stream(int b){ if(b>=B_DECA&&b<=B_DECR)return g_dec[b-B_DECA].st; if(b>=B_VFA&&b<=B_VFR)return g_vf[b-B_VFA].st; if(b==B_VLAP)return ST_PR; if(b==B_VLAQ)return ST_CQ; return -1; }
 static int body_id(const char *n){ int i; for(i=0;i<NBODY;i++)if(!strcmp(n,g_bname[i]))return i; return -1; }
 static void run_body(tctx *T){
   int b=T->body;
@@ -417,12 +475,13 @@ static void run_body(tctx *T){
   else if(b==B_ENCT)body_tiny(T,0);
   else if(b==B_ENCS)body_tiny(T,1);
   else if(b<=B_DECR)body_dec(T,&g_dec[b-B_DECA]);
-  else body_vf(T,&g_vf[b-B_VFA]);
+  else if(b<=B_VFR)body_vf(T,&g_vf[b-B_VFA]);
+  else body_lap(T,b==B_VLAP?ST_PR:ST_CQ);
   step_close(T);
 }
 static void tctx_init(tctx *T,int tid,int body){ memset(T,0,sizeof(*T)); T->tid=tid; T->body=body; T->fenv_bad=-1; T->lcg=4711u+97u*(unsigned)body; h_init(&T->dig); }
 static void tctx_export(const tctx *T,thres *o){
-  o->dig=T->dig; memcpy(o->pc,T->pc,sizeof(o->pc)); o->napi=T->napi; o->nsteps=T->nsteps; o->nonzero=T->nonzero; o->padded=T->padded; o->tiny_packets=T->tiny_packets; o->tiny_empty=T->tiny_empty; o->fenv_bad=T->fenv_bad;
+  o->dig=T->dig; memcpy(o->pc,T->pc,sizeof(o->pc)); o->napi=T->napi; o->nsteps=T->nsteps; o->nonzero=T->nonzero; o->padded=T->padded; o->tiny_packets=T->tiny_packets; o->tiny_empty=T->tiny_empty; o->lap2ok=T->lap2ok; o->fenv_bad=T->fenv_bad;
   memcpy(o->fenv_where,T->fenv_where,sizeof(o->fenv_where)); memcpy(o->stepdig,T->stepdig,sizeof(o->stepdig)); memcpy(o->stepname,T->stepname,sizeof(o->stepname));
 }
 
@@ -622,7 +681,7 @@ static void do_case(long idx,char *line){
     g_solo_have[b[0]]=0; if(solo_get(b[0])){ printf("%ld SOLOFAIL body=%s\n",idx,g_bname[b[0]]); return; }
     det=!memcmp(&first.dig,&g_solo[b[0]].dig,sizeof(h128))&&first.napi==g_solo[b[0]].napi&&first.pc[3]==g_solo[b[0]].pc[3];
     h_hex(&first.dig,hx);
-    printf("%ld ok body=%s dig=%s steps=%ld api=%ld allocs=%ld nonzero=%ld padded=%ld tinypk=%ld tinyempty=%ld fenv=%d det=%d\n",idx,g_bname[b[0]],hx,first.nsteps,first.napi,first.pc[3]-first.pc[2],first.nonzero,first.padded,first.tiny_packets,first.tiny_empty,first.fenv_bad,det);
+    printf("%ld ok body=%s dig=%s steps=%ld api=%ld allocs=%ld nonzero=%ld padded=%ld tinypk=%ld tinyempty=%ld lap2ok=%ld fenv=%d det=%d\n",idx,g_bname[b[0]],hx,first.nsteps,first.napi,first.pc[3]-first.pc[2],first.nonzero,first.padded,first.tiny_packets,first.tiny_empty,first.lap2ok,first.fenv_bad,det);
     return;
   }
   if(!strcmp(kind,"fill")){
@@ -636,6 +695,23 @@ static void do_case(long idx,char *line){
       int k; const char *sn="?"; const thres *a=&R->th[0],*s=&g_solo[b[0]];
       for(k=0;k<MAXSTEP&&k<s->nsteps;k++)if(k>=a->nsteps||a->stepdig[k]!=s->stepdig[k]){ sn=s->stepname[k]; break; }
       printf("%ld viol key=fill_digest:%s:%s|pattern=0x%02x|solo body %s: output depends on heap contents (fresh memory filled with 0x%02x, freed memory with 0x%02x): digest %s vs %s, first differing step `%s`\n",idx,g_bname[b[0]],sn,pat,g_bname[b[0]],pat,pat^0x5a,hx,hs,sn);
+    }else printf("%ld ok dig=%s fenv=%d\n",idx,hx,R->th[0].fenv_bad);
+    return;
+  }
+  if(!strcmp(kind,"sfill")){
+    /* sfill <body> <hex word>: solo body with the dead stack pre-filled before every API call */
+    unsigned w=0; int rc; char hx[40],hs[40];
+    sscanf(line,"%*s %*s %x",&w);
+    g_sfill_on=1; g_sfill_word=w;
+    { long hit; stack_prefill(); hit=stack_probe(); if(hit<8000){ printf("%ld MACHINERY stack pre-fill not effective (probe saw %ld of 16384 words)\n",idx,hit); g_sfill_on=0; return; } }
+    rc=run_child(b,1,0,0,0,NULL,0,-1);
+    g_sfill_on=0;
+    if(rc!=RC_OK){ printf("%ld viol key=stackfill_%s:%s|word=0x%08x|solo body %s with pre-filled stack: %s (%d)\n",idx,rc==RC_TIMEOUT?"timeout":"crash",g_bname[b[0]],w,g_bname[b[0]],rc==RC_TIMEOUT?"did not terminate":"crashed",g_crashdetail); return; }
+    h_hex(&R->th[0].dig,hx); h_hex(&g_solo[b[0]].dig,hs);
+    if(strcmp(hx,hs)){
+      int k; const char *sn="?"; const thres *a=&R->th[0],*s=&g_solo[b[0]];
+      for(k=0;k<MAXSTEP&&k<s->nsteps;k++)if(k>=a->nsteps||a->stepdig[k]!=s->stepdig[k]){ sn=s->stepname[k]; break; }
+      printf("%ld viol key=stackfill_digest:%s:%s|word=0x%08x|solo body %s: output depends on dead stack contents (256 KiB below the caller filled with 0x%08x before every API call): digest %s vs %s, first differing step `%s`\n",idx,g_bname[b[0]],sn,w,g_bname[b[0]],w,hx,hs,sn);
     }else printf("%ld ok dig=%s fenv=%d\n",idx,hx,R->th[0].fenv_bad);
     return;
   }
